@@ -1811,6 +1811,8 @@ impl Archive {
             )));
         }
 
+        self.check_stored_extent(&file_info, name)?;
+
         // For v3+ archives with HET/BET tables, we already have all the info we need in FileInfo
         // For classic archives, we need to get additional info from the block table
         let (file_size_for_key, _actual_file_size) =
@@ -1886,8 +1888,14 @@ impl Archive {
 
         if is_single_unit {
             log::debug!("Patch file is stored as single unit");
-            let compressed_data_size =
-                file_info.compressed_size as usize - patch_info_length as usize;
+            let compressed_data_size = (file_info.compressed_size as usize)
+                .checked_sub(patch_info_length as usize)
+                .ok_or_else(|| {
+                    Error::invalid_format(format!(
+                        "Patch info length {} exceeds the stored size {} of the patch file",
+                        patch_info_length, file_info.compressed_size
+                    ))
+                })?;
 
             let mut data = vec![0u8; compressed_data_size];
             self.reader.read_exact(&mut data)?;
@@ -1910,8 +1918,11 @@ impl Archive {
 
             // Decompress if needed
             if file_info.is_compressed() {
-                let compression_type = data[0];
-                let compressed_data = &data[1..];
+                let Some((&compression_type, compressed_data)) = data.split_first() else {
+                    return Err(Error::invalid_format(
+                        "Compressed patch file has no data after its patch info",
+                    ));
+                };
 
                 log::debug!(
                     "Decompressing patch file (single unit): method=0x{:02X}, compressed={} bytes → {} bytes",
@@ -1939,8 +1950,20 @@ impl Archive {
                 sector_count
             );
 
-            // Read sector offset table
+            // Read sector offset table. patch_data_size (untrusted) determines its size: the table
+            // has to lie inside the archive file before a buffer is sized from it.
             let offset_table_size = (sector_count + 1) * 4;
+            let archive_len = self.reader.get_ref().metadata()?.len();
+            if file_info
+                .file_pos
+                .checked_add(28 + offset_table_size as u64)
+                .is_none_or(|end| end > archive_len)
+            {
+                return Err(Error::invalid_format(format!(
+                    "Sector offset table of {offset_table_size} bytes of the patch file at offset {} (patch data size {patch_data_size}) does not fit in an archive of {archive_len} bytes",
+                    file_info.file_pos
+                )));
+            }
             let mut offset_data = vec![0u8; offset_table_size];
             self.reader.read_exact(&mut offset_data)?;
 
@@ -1959,12 +1982,21 @@ impl Archive {
 
             log::debug!("Sector offsets: {:?}", &sector_offsets);
 
-            // Read and decompress each sector
-            let mut decompressed_data = Vec::with_capacity(patch_data_size as usize);
+            // Read and decompress each sector. patch_data_size is untrusted: reserve a bounded
+            // amount, the vector grows with real data.
+            let mut decompressed_data =
+                Vec::with_capacity((patch_data_size as usize).min(16 * 1024 * 1024));
 
             for i in 0..sector_count {
                 let sector_start = sector_offsets[i] as usize;
                 let sector_end = sector_offsets[i + 1] as usize;
+                if sector_end <= sector_start
+                    || file_info.file_pos.saturating_add(sector_end as u64) > archive_len
+                {
+                    return Err(Error::invalid_format(format!(
+                        "Sector {i} of the patch file spans offsets {sector_start}..{sector_end}, which is empty or beyond the {archive_len} bytes of the archive"
+                    )));
+                }
                 let sector_compressed_size = sector_end - sector_start;
 
                 log::debug!(
@@ -2001,8 +2033,8 @@ impl Archive {
                 );
 
                 // Decompress using standard MPQ decompression
-                let expected_size =
-                    sector_size.min(patch_data_size as usize - decompressed_data.len());
+                let expected_size = sector_size
+                    .min((patch_data_size as usize).saturating_sub(decompressed_data.len()));
                 let sector_decompressed = compression::decompress(
                     &sector_data[1..], // Skip compression method byte
                     compression_method,
